@@ -186,6 +186,9 @@ fn framing<W: Write>(out: &mut W, prop: &str, pl: &Payloads, rng: &mut Rng) {
         riff(&[chunk(b"VP8X", &vp8x_payload(0x12, 2, 2)), chunk(b"ANIM", &[0; 6]),
                chunk(b"ANMF", &anmf_payload(0, 0, 2, 2, 0, &[chunk(b"ALPH", &pl.alph_for(2, 2)), chunk(b"VP8 ", VP8_DATA)])),
                chunk(b"ANMF", &anmf_payload(0, 0, 1, 1, 3, &[chunk(b"VP8L", &pl.vp8l_for(1, 1))]))]),
+        // unknown chunks after the image (accepted only when they are allowed): they are skipped, never read, so a file
+        // that ends inside one is told from a complete one only by the position after the skip
+        riff(&[chunk(b"VP8X", &vp8x_payload(0x00, 1, 1)), chunk(b"VP8L", &pl.vp8l_for(1, 1)), chunk(b"unkn", &[1, 2, 3, 4, 5, 6]), chunk(b"junk", &[7; 5]), chunk(b"more", &[8; 12])]),
     ];
     for (gi, file) in good.iter().enumerate() {
         let true_size = (file.len() - 8) as i64;
@@ -208,6 +211,10 @@ fn framing<W: Write>(out: &mut W, prop: &str, pl: &Payloads, rng: &mut Rng) {
             let s = Sparse::from_bytes(&file[..cut]);
             emit(out, prop, &format!("cut{gi}-{cut}-s"), &s, false, Kind::Seekable);
             emit(out, prop, &format!("cut{gi}-{cut}-t"), &s, true, Kind::Strict);
+            if gi == 4 || cut % 3 == 0 {
+                emit(out, prop, &format!("cut{gi}-{cut}-sa"), &s, true, Kind::Seekable);
+                emit(out, prop, &format!("cut{gi}-{cut}-td"), &s, false, Kind::Strict);
+            }
         }
         // every chunk size field +1 / -1 / huge (a chunk overrunning its parent or the file)
         let mut pos = 12;
